@@ -3,9 +3,13 @@
 package couchbase
 
 import (
+	"github.com/asaskevich/EventBus"
 	"github.com/couchbase/gocbcore/v10"
+	"github.com/google/uuid"
 
 	"github.com/Trendyol/go-dcp/config"
+	"github.com/Trendyol/go-dcp/helpers"
+	"github.com/Trendyol/go-dcp/membership"
 	"github.com/Trendyol/go-dcp/wrapper"
 )
 
@@ -51,3 +55,41 @@ func VerifCheckpointID(vbID uint16, groupName string) (id []byte, ok bool) {
 	}()
 	return getCheckpointID(vbID, groupName), true
 }
+
+// VerifCBMembership is a cbMembership whose register / heartbeat / monitor steps the harness runs one at a
+// time instead of the timer loops of NewCBMembership.
+type VerifCBMembership struct {
+	m *cbMembership
+}
+
+// VerifNewCBMembership builds the membership exactly as NewCBMembership does, minus register() and the two loops.
+func VerifNewCBMembership(cfg *config.Dcp, client Client, bus EventBus.Bus) *VerifCBMembership {
+	couchbaseMetadataConfig := cfg.GetCouchbaseMetadata()
+
+	cbm := &cbMembership{
+		infoChan:         make(chan *membership.Model),
+		client:           client,
+		id:               []byte(helpers.Prefix + cfg.Dcp.Group.Name + ":" + _type + ":" + uuid.New().String()),
+		instanceAll:      []byte(helpers.Prefix + cfg.Dcp.Group.Name + ":" + _type + ":all"),
+		bus:              bus,
+		scopeName:        couchbaseMetadataConfig.Scope,
+		collectionName:   couchbaseMetadataConfig.Collection,
+		membershipConfig: cfg.GetCouchbaseMembership(),
+		config:           cfg,
+	}
+
+	if err := bus.SubscribeAsync(helpers.MembershipChangedBusEventName, cbm.membershipChangedListener, true); err != nil {
+		panic(err)
+	}
+
+	return &VerifCBMembership{m: cbm}
+}
+
+func (v *VerifCBMembership) ID() string                        { return string(v.m.id) }
+func (v *VerifCBMembership) Register()                         { v.m.register() }
+func (v *VerifCBMembership) Heartbeat()                        { v.m.heartbeat() }
+func (v *VerifCBMembership) Monitor()                          { v.m.monitor() }
+func (v *VerifCBMembership) Info() *membership.Model           { return v.m.info }
+func (v *VerifCBMembership) JoinTime() int64                   { return v.m.clusterJoinTime }
+func (v *VerifCBMembership) Close()                            { v.m.Close() }
+func (v *VerifCBMembership) Membership() membership.Membership { return v.m }
